@@ -68,7 +68,8 @@ func checkC09(tier string) int {
 	}
 	rec(nil)
 	// every variant also from the subscribed and closing states
-	for _, pre := range [][]int{{idxOf("SUB t c")}, {idxOf("SUB t c"), idxOf("CLS")}, {idxOf("IDENTIFY plain"), idxOf("SUB t c"), idxOf("RDY 1")}, {idxOf("SUB t c"), idxOf("PUB t 1"), idxOf("RDY 1")}} {
+	for _, pre := range [][]int{{idxOf("SUB t c")}, {idxOf("SUB t c"), idxOf("CLS")}, {idxOf("IDENTIFY plain"), idxOf("SUB t c"), idxOf("RDY 1")}, {idxOf("SUB t c"), idxOf("PUB t 1"), idxOf("RDY 1")},
+		{idxOf("SUB t c"), idxOf("CLS"), idxOf("RDY 1")}, {idxOf("SUB t c"), idxOf("RDY 1"), idxOf("CLS")}, {idxOf("SUB t c"), idxOf("PUB t 1"), idxOf("CLS"), idxOf("RDY 1")}} {
 		for i := 0; i < n; i++ {
 			seq := append(append([]int{}, pre...), i)
 			if len(seq) > depth {
